@@ -2,9 +2,73 @@ import os
 
 META = {
     "explanation": "every write primitive of the package sits in a function under an effect contract over the ghost file system (frame scan), and each such function is verified: dry_run => fs == old(fs)",
-    "out_of_reach": ["the 'report of a dry run equals the report of a real run' half of the property (2-safety) is not proved",
+    "out_of_reach": ["the 'report of a dry run equals the report of a real run' half of the property (2-safety) is not proved deductively; it is run as a bounded stand-in on a small project",
                      "the semgrep subprocess (absent offline)"],
 }
+
+
+def run_dry_vs_real(tier="quick", seed=0):
+    """BOUNDED stand-in for the 2-safety half of C04: the real CLI with --dry-run on one copy of a small project and without it on
+    another; the dry run must leave its tree byte-identical and report, per codemod, exactly the changesets and failed files of the
+    real run (single-codemod runs, as in the property statement)."""
+    import json
+    import shutil
+    import tempfile
+    from contracts.props.C09 import FILES, _run, _tree
+    import contextlib, io, logging
+    from codemodder.codemodder import run
+    codemods = ["pixee:python/use-generator", "pixee:python/use-defusedxml", "pixee:python/fix-assert-tuple", "pixee:python/use-walrus-if",
+                "pixee:python/remove-future-imports"]
+    if tier != "thorough":
+        codemods = codemods[:3]
+    base = tempfile.mkdtemp(prefix="pyvc_c04_")
+    evals, bad = 0, None
+    cwd = os.getcwd()
+
+    def go(root, cid, dry):
+        out = os.path.join(base, "rep_" + os.path.basename(root) + ".codetf")
+        if os.path.exists(out):
+            os.unlink(out)
+        rootlog = logging.getLogger()
+        for h in list(rootlog.handlers):
+            rootlog.removeHandler(h)
+        with contextlib.redirect_stdout(io.StringIO()), contextlib.redirect_stderr(io.StringIO()):
+            rc = run([root, "--output", out, "--codemod-include", cid] + (["--dry-run"] if dry else []))
+        rep = json.load(open(out)) if os.path.exists(out) else {"results": []}
+        res = {r["codemod"]: {"changes": sorted((cs["path"], cs["diff"], json.dumps(cs["changes"], sort_keys=True)) for cs in r["changeset"]),
+                              "failed": sorted(os.path.relpath(f, root) if os.path.isabs(f) else f for f in (r.get("failedFiles") or []))}
+               for r in rep["results"]}
+        return rc, res
+    try:
+        os.chdir(base)
+        for k, cid in enumerate(codemods):
+            a, b = os.path.join(base, f"dry{k}"), os.path.join(base, f"real{k}")
+            for root in (a, b):
+                for f, text in FILES.items():
+                    os.makedirs(os.path.dirname(os.path.join(root, f)), exist_ok=True)
+                    open(os.path.join(root, f), "w").write(text)
+            before = _tree(a)
+            rc_a, res_a = go(a, cid, True)
+            rc_b, res_b = go(b, cid, False)
+            evals += 1
+            w = None
+            if _tree(a) != before:
+                w = {"clause": "--dry-run leaves the project byte-identical", "changed": sorted(f for f in before if before[f] != _tree(a).get(f))}
+            elif rc_a != rc_b:
+                w = {"clause": "same exit status", "dry": rc_a, "real": rc_b}
+            elif res_a != res_b:
+                w = {"clause": "report(dry run) == report(real run) apart from timing", "dry": res_a.get(cid), "real": res_b.get(cid)}
+            if w is not None and bad is None:
+                bad = dict(w, codemod=cid)
+    finally:
+        os.chdir(cwd)
+        shutil.rmtree(base, ignore_errors=True)
+    return {"kind": "bounded", "id": "bounded:--dry-run predicts the real run (real CLI on a small project)", "status": "refuted" if bad else "discharged",
+            "bound": f"{len(codemods)} single-codemod runs over a 4-file project (one dependency-adding codemod, a manifest that is also code, a file that fails to parse)",
+            "evaluations": evals, "witness": bad, "func": "codemodder.codemodder.run",
+            "reason": "" if not bad else f"clause '{bad.get('clause')}' fails for {bad.get('codemod')}",
+            "replay": {"reproduced": True, "detail": json.dumps(bad, default=str)[:2500]} if bad else None,
+            "clause": "tree(dry run) == tree(before) and, per codemod, changesets / change lines / failed files of the dry run == those of the real run"}
 
 
 def extra_checks(tier="quick", seed=0):
@@ -12,4 +76,4 @@ def extra_checks(tier="quick", seed=0):
     from pyvc import framescan
     from pyvc.api import REG
     src = os.path.dirname(os.path.dirname(os.path.abspath(codemodder.__file__)))
-    return framescan.obligations(src, REG.contracts)
+    return framescan.obligations(src, REG.contracts) + [run_dry_vs_real(tier, seed)]
